@@ -73,7 +73,7 @@ theorem print_derives (fuel : Nat) (e : E) (p : Prec) (t : E) (hp : p ≤ opCall
 theorem print_derives_parsed (fuel : Nat) (e : E) (p : Prec) (t : E) (hp : p ≤ opCall)
     (hg : gwf e = true) (hl : p ≤ lvl e) (h : printT fuel e p = some t) : DerivesA p (yield t) t :=
   print_derives fuel e p t hp (Verif.Proofs.JsPrintGwf.gwf_wfGo e hg)
-    (Verif.Proofs.JsPrintGwf.fitsIn_of_lvl p e hl) h
+    (Verif.Proofs.JsPrintGwf.fitsIn_of_lvl p e hl hg) h
 
 /-- the same for the traversal WITH all rewrites (`minE`: `optimizeCondExpr` / `optimizeUnaryExpr` at every node, De Morgan,
     `a?b:c → a&&b`, `??`, call merging, comma conditions, … followed by the printer's decisions): every rewrite
@@ -91,7 +91,7 @@ theorem minify_derives (v20 : Bool) (fuel : Nat) (e : E) (p : Prec) (t : E) (hp 
 theorem minify_derives_parsed (v20 : Bool) (fuel : Nat) (e : E) (p : Prec) (t : E) (hp : p ≤ opCall)
     (hg : gwf e = true) (hl : p ≤ lvl e) (h : minE v20 fuel e p = some t) : DerivesA p (yield t) t :=
   minify_derives v20 fuel e p t hp (Verif.Proofs.JsPrintGwf.gwf_wfGo e hg)
-    (Verif.Proofs.JsPrintGwf.fitsIn_of_lvl p e hl) h
+    (Verif.Proofs.JsPrintGwf.fitsIn_of_lvl p e hl hg) h
 
 /-- assignment targets stay assignment targets -/
 theorem print_target (fuel : Nat) (e : E) (p : Prec) (t : E) (hp : p ≤ opCall)
@@ -180,6 +180,29 @@ def traceOf : Out Val → List Ev
 /-- `f` and `g` are two different host functions -/
 def k2State : St := { env := fun n => if n == "f" then .obj 1 else if n == "g" then .obj 2 else .undef, trace := [] }
 
+/-- `toNullishExpr`, both rewrites: `a==null?b:a ⇒ a??b` and `a==null?undefined:a.b.c ⇒ a?.b.c` (also with the test
+    written `a!=null`, `a===null||a===undefined`, …) keep the behaviour: the optional chain short-circuits to `undefined`,
+    which is what the absent branch evaluates to (`isUndefined`: `undefined`, `void <pure>`) -/
+theorem toNullish_sound (H : Host) (c x y e : E) (h : toNullish c x y = .yes e) : eval H e = eval H (.cond c x y) :=
+  Verif.Proofs.JsNullishSound.toNullish_sound c x y e h
+
+example : toNullish (.bin .eq (.var "a") (.lit .null)) (.var "undefined") (.call (.dot (.dot (.var "a") "b") "c") [])
+    = .yes (.opt "a" (.call (.dot (.dot (.var "a") "b") "c") [])) := by rfl
+-- the absent branch must be `undefined`: `a==null?null:a.b` is left alone
+example : toNullish (.bin .eq (.var "a") (.lit .null)) (.lit .null) (.dot (.var "a") "b") = .no := by rfl
+
+def valOf : Out Val → Option Val
+  | .ok v _ => some v
+  | .thr _ _ => none
+
+/-- … and the guard `isUndefined` on the absent branch is necessary: with `null` there, `a==null?null:a.b` and `a?.b`
+    differ when `a` is `null` (`null` against `undefined`) -/
+theorem optchain_guard_needed :
+    valOf (eval quietHost (.cond (.bin .eq (.var "a") (.lit .null)) (.lit .null) (.dot (.var "a") "b"))
+      { env := fun _ => .null, trace := [] })
+    ≠ valOf (eval quietHost (.opt "a" (.dot (.var "a") "b")) { env := fun _ => .null, trace := [] }) := by
+  simp [eval, bindM, retM, getVar, lookup, strictBin, looseEq, isNullish, truthy, valOf, compoundOp]
+
 /-- the full statement is false on the unchanged tree: the input calls `g`, the output calls `f` -/
 theorem rewrite_sound_counterexample : ¬ rewrite_sound_full := by
   intro h
@@ -249,10 +272,6 @@ theorem stmts_sound_partial (H : Host) (fuel : Nat) (l : List S)
 /-- witness of K-C01-1: the body of `function t(p){f();p=1;return undefined}` -/
 def k1Body : List S :=
   [.expr (.call (.var "f") []), .expr (.bin .assign (.var "p") (.lit (.num 1))), .ret (some (.var "undefined"))]
-
-def valOf : Out Val → Option Val
-  | .ok v _ => some v
-  | .thr _ _ => none
 
 /-- the full statement is false on the unchanged tree: the function returns 1 instead of `undefined` -/
 theorem stmts_sound_counterexample : ¬ stmts_sound_full := by
